@@ -913,6 +913,8 @@ def _ren_term(t, lo, bo):
             q["cond"] = _ren_op(t["cond"], lo, bo)
     elif k == "call":
         q["target"] = t["target"] + bo if t["target"] >= 0 else -1
+        if "orig_target" in t:
+            q["orig_target"] = t["orig_target"] + bo if t["orig_target"] >= 0 else -1
         q["args"] = [_ren_op(a, lo, bo) for a in t["args"]]
         q["dest"] = _ren_place(t["dest"], lo, bo)
         q["func"] = _ren_op(t["func"], lo, bo)
